@@ -371,3 +371,93 @@ def f_occ(tier="quick", seed=0):
         "extents": {"K": 2, "M": 4, "N": 3}, "sizes": {"M2": 3, "M1": 2, "M0": 1, "N2": 2, "N1": 2, "N0": 1},
         "tags": {"family": "occ", "template": "demo"}})
     return specs
+
+
+# ---------------------------------------------------------------- F-affine
+AFFINE = [
+    # name, decl, expr, (coef of q, coef of s)
+    ("conv", {"F": ["S"], "I": ["W"], "O": ["Q"]}, "O[q] = I[q + s] * F[s]", (1, 1)),
+    ("stride", {"F": ["S"], "I": ["W"], "O": ["Q"]}, "O[q] = I[2*q + s] * F[s]", (2, 1)),
+    ("dilate", {"F": ["S"], "I": ["W"], "O": ["Q"]}, "O[q] = I[q + 2*s] * F[s]", (1, 2)),
+    ("stride3", {"F": ["S"], "I": ["W"], "O": ["Q"]}, "O[q] = I[3*q + s] * F[s]", (3, 1)),
+    ("sd22", {"F": ["S"], "I": ["W"], "O": ["Q"]}, "O[q] = I[2*q + 2*s] * F[s]", (2, 2)),
+]
+
+
+def f_affine(tier="quick", seed=0):
+    specs = []
+    Qs = (3, 5) if tier == "quick" else (2, 3, 4, 5, 6)
+    Ss = (2, 3) if tier == "quick" else (1, 2, 3)
+    sizes = (2,) if tier == "quick" else (1, 2, 3)
+    for name, decl, expr, (cq, cs) in AFFINE:
+        if tier == "quick" and name in ("stride3",):
+            continue
+        for Q in Qs:
+            for S in Ss:
+                W = cq * (Q - 1) + cs * (S - 1) + 1
+                ext = {"Q": Q, "S": S, "W": W}
+                tags = {"family": "affine", "template": name, "follow": False}
+                for lo in (["Q", "S"], ["S", "Q"], ["W", "Q"], ["Q", "W"], ["W", "S"], ["S", "W"]):
+                    specs.append({"name": "affine/%s/Q%dS%d/lo=%s" % (name, Q, S, ",".join(lo)), "decl": decl,
+                                  "exprs": [expr], "mapping": {"loop-order": {"O": lo}}, "extents": ext, "tags": tags})
+                specs.append({"name": "affine/%s/Q%dS%d/nomap" % (name, Q, S), "decl": decl, "exprs": [expr],
+                              "mapping": {}, "extents": ext, "tags": tags})
+                for sz in sizes:
+                    for dirs, lv, lab in ((["uniform_shape(%d)" % sz], 1, "u%d" % sz),
+                                          (["uniform_shape(%d)" % (2 * sz), "uniform_shape(%d)" % sz], 2, "u%du%d" % (2 * sz, sz))):
+                        if lv == 2 and (tier == "quick" and (Q, S) != (5, 2)):
+                            continue
+                        part = {"O": {"Q": dirs, "W": ["follow(Q)"]}}
+                        if lv == 1:
+                            los = (["Q1", "Q0", "S"], ["Q1", "S", "Q0"], ["S", "Q1", "Q0"], ["Q1", "W0", "Q0"],
+                                   ["Q1", "W0", "S"], ["Q1", "Q0", "W0"], ["Q1", "S", "W0"])
+                        else:
+                            los = (["Q2", "Q1", "S", "Q0"], ["Q2", "Q1", "W0", "Q0"], ["Q2", "Q1", "W0", "S"],
+                                   ["Q2", "S", "Q1", "Q0"], ["Q2", "Q1", "Q0", "S"])
+                        t2 = dict(tags, follow=True, aligned=(Q % sz == 0), psize=sz, levels=lv)
+                        for lo in los:
+                            specs.append({"name": "affine/%s/Q%dS%d/%s/lo=%s" % (name, Q, S, lab, ",".join(lo)),
+                                          "decl": decl, "exprs": [expr],
+                                          "mapping": {"partitioning": part, "loop-order": {"O": lo}},
+                                          "extents": ext, "tags": t2})
+    # subsampling and a second operand indexed by the output rank
+    for M in ((3,) if tier == "quick" else (2, 3, 4)):
+        ext = {"M": M, "K": 2 * (M - 1) + 1}
+        tags = {"family": "affine", "template": "subsample", "follow": False}
+        d = {"A": ["K"], "Z": ["M"]}
+        specs.append({"name": "affine/subsample/M%d/nomap" % M, "decl": d, "exprs": ["Z[m] = A[2*m]"], "mapping": {},
+                      "extents": ext, "tags": tags})
+        for lo in (["M"], ["K"]):
+            specs.append({"name": "affine/subsample/M%d/lo=%s" % (M, lo[0]), "decl": d, "exprs": ["Z[m] = A[2*m]"],
+                          "mapping": {"loop-order": {"Z": lo}}, "extents": ext, "tags": tags})
+        for sz in sizes:
+            for dirs, lab in ((["uniform_shape(%d)" % sz], "u%d" % sz), (["nway_shape(%d)" % sz], "n%d" % sz)):
+                for lo in (["M1", "M0"], ["M1", "K0"]):
+                    specs.append({"name": "affine/subsample/M%d/%s/lo=%s" % (M, lab, ",".join(lo)), "decl": d,
+                                  "exprs": ["Z[m] = A[2*m]"],
+                                  "mapping": {"partitioning": {"Z": {"M": dirs, "K": ["follow(M)"]}}, "loop-order": {"Z": lo}},
+                                  "extents": ext, "tags": dict(tags, follow=True, aligned=(M % sz == 0), psize=sz, levels=1)})
+    d3 = {"F": ["S"], "I": ["W"], "G": ["Q"], "O": ["Q"]}
+    for Q, S in (((5, 2),) if tier == "quick" else ((4, 2), (5, 2), (6, 3))):
+        ext = {"Q": Q, "S": S, "W": Q + S - 1}
+        tags = {"family": "affine", "template": "conv3", "follow": False}
+        for lo in (["Q", "S"], ["S", "Q"], ["W", "S"], ["W", "Q"]):
+            specs.append({"name": "affine/conv3/Q%dS%d/lo=%s" % (Q, S, ",".join(lo)), "decl": d3,
+                          "exprs": ["O[q] = I[q + s] * F[s] * G[q]"], "mapping": {"loop-order": {"O": lo}},
+                          "extents": ext, "tags": tags})
+        for sz in (2,) if tier == "quick" else (1, 2, 3):
+            for lo in (["Q1", "S", "Q0"], ["Q1", "W0", "Q0"], ["Q1", "Q0", "S"], ["Q1", "W0", "S"]):
+                specs.append({"name": "affine/conv3/Q%dS%d/u%d/lo=%s" % (Q, S, sz, ",".join(lo)), "decl": d3,
+                              "exprs": ["O[q] = I[q + s] * F[s] * G[q]"],
+                              "mapping": {"partitioning": {"O": {"Q": ["uniform_shape(%d)" % sz], "W": ["follow(Q)"]}},
+                                          "loop-order": {"O": lo}},
+                              "extents": ext, "tags": dict(tags, follow=True, aligned=(Q % sz == 0), psize=sz, levels=1)})
+    # 2-D convolution
+    d2 = {"F": ["R", "S"], "I": ["H", "W"], "O": ["P", "Q"]}
+    for lo in (["P", "Q", "R", "S"], ["R", "S", "P", "Q"], ["P", "R", "Q", "S"], ["H", "W", "R", "S"], ["H", "R", "W", "S"],
+               ["P", "Q", "H", "W"]):
+        specs.append({"name": "affine/conv2d/lo=%s" % ",".join(lo), "decl": d2,
+                      "exprs": ["O[p, q] = I[p + r, q + s] * F[r, s]"], "mapping": {"loop-order": {"O": lo}},
+                      "extents": {"P": 2, "Q": 3, "R": 2, "S": 2, "H": 3, "W": 4},
+                      "tags": {"family": "affine", "template": "conv2d", "follow": False}})
+    return specs
